@@ -937,11 +937,16 @@ func (r *relationship) path(dsIdx datasetIdx, ds *ld.RDFDataset,
 	}
 
 	nextKey := dsIdx
+	visited := map[datasetIdx]struct{}{dsIdx: {}}
 	for {
 		parentIdx, ok := r.parents[nextKey]
 		if !ok {
 			break
 		}
+		if _, seen := visited[parentIdx]; seen {
+			return k, errors.New("reference cycle found in the document")
+		}
+		visited[parentIdx] = struct{}{}
 
 		var parent *ld.Quad
 		parent, err = getQuad(ds, parentIdx)
